@@ -172,15 +172,15 @@ class C14(Base):
 
     def generate(self, rng, tier):
         q = tier == "quick"
-        for _ in range(1200 if q else 80000):
+        for _ in range(3000 if q else 120000):
             yield "memo " + self.gen_hist(rng, False, 30 if rng.random() < 0.9 else 90)
-        for _ in range(300 if q else 10000):
+        for _ in range(700 if q else 10000):
             yield "memo " + self.gen_failthen(rng, rng.random() < 0.3)
-        for _ in range(300 if q else 10000):
+        for _ in range(700 if q else 10000):
             yield "memo " + self.gen_lifecycle(rng)
-        for _ in range(400 if q else 20000):
+        for _ in range(1000 if q else 20000):
             yield "memo " + self.gen_hist(rng, True, 30)
-        for _ in range(900 if q else 50000):
+        for _ in range(2500 if q else 120000):
             yield self.gen_conc(rng, rng.choice(["first", "first", "fail", "pool"]))
         if not q:
             alpha = ["lang:en", "lang:pl", "drop:0", "drop:1", "get:0:A:61:1:d", "get:1:A:61:2:k",
@@ -277,7 +277,8 @@ class C14(Base):
                 exp_h = "h%d=m" % len(handles)
                 if not o.startswith(exp_h):
                     return where + "expected a new handle %s.., got %s" % (exp_h, o)
-                c = int(o[len(exp_h):])
+                cs, _, strong = o[len(exp_h):].partition("/s")
+                c = int(cs)
                 cur = table.get(p[1]) if p[0] == "lang" else None
                 if cur is not None and classes[cur]["live"] > 0:
                     if c != cur:
@@ -293,6 +294,8 @@ class C14(Base):
                     return where + "memoizer m%d belongs to %s, handed out for %s" % (c, classes[c]["lang"], p[1])
                 classes[c]["live"] += 1
                 handles.append(c)
+                if strong != str(classes[c]["live"]):
+                    return where + "strong count %s but %d handles of m%d are alive" % (strong, classes[c]["live"], c)
             elif p[0] == "drop":
                 h = int(p[1])
                 if h < len(handles) and handles[h] is not None:
@@ -496,7 +499,7 @@ class C14(Base):
                 elif ">" in o:
                     bump(dist, "obs:constructed")
             elif k in ("lang", "new") and "=m" in o:
-                c = o.split("=m")[1]
+                c = o.split("=m")[1].split("/")[0]
                 if k == "new":
                     bump(dist, "obs:new-fresh")
                 elif live.get(c, 0) > 0:
